@@ -25,7 +25,8 @@ class World:
     run_timeout = 60.0
     required_probes = ["defective_generator", "shifted_start", "coarser_step",
                        "edit_between_make_and_use", "reassign_rate", "zero_rate",
-                       "refused_diagonal", "unaligned_shift", "complex_spectrum", "main_axis_start_nonzero", "propagation_matrix_with_corrections", "step_ratio_not_an_exact_integer"]
+                       "refused_diagonal", "unaligned_shift", "complex_spectrum", "main_axis_start_nonzero", "propagation_matrix_with_corrections", "step_ratio_not_an_exact_integer",
+                       "two_propagation_results_kept", "long_shift_just_off_a_whole_coarse_step"]
     required_faults = ["refused_diagonal_set", "refused_bad_assignment"]
     components = {
         "real": ["quantarhei RateMatrix.set_rate", "PopulationPropagator.propagate",
@@ -55,6 +56,10 @@ class World:
             Nt = rng.choice([100, 200])      # room for coarse steps whose floating-point ratio to dt is not an exact integer
         # ||K|| dt between 1e-3 and ~0.6
         kscale = (10 ** rng.uniform(-3, -0.5)) / dt
+        long_fine = rng.random() < 0.06
+        if long_fine:
+            dt, Nt, t0 = 2.0 ** -10, 135168, 0.0
+            kscale = rng.uniform(0.3, 3.0) / 128.0        # the dynamics is still alive at t ~ 100
         nops = rng.randint(3, 30 if tier == "quick" else 45)
         ops = []
         # seed edits according to shape so that special spectra are reached
@@ -93,6 +98,15 @@ class World:
                 ln = rng.randint(2, 12)
                 ops.append({"op": "prop_matrix", "m": m, "s": s, "len": ln, "corr": rng.choice([-1, -1, -1, 0, 1, 2]),
                             "exact": rng.random() < 0.5})
+        if long_fine:
+            # a very fine, very long main axis: sub-axes start more than 1e5 fine steps in, on and just off whole coarse steps
+            new = []
+            for o in ops:
+                if o["op"] in ("propagate", "prop_matrix"):
+                    o = {"op": "prop_matrix", "m": 1024, "s": rng.randint(96, 128) * 1024 + rng.choice([0, 1, 1, -1, 3, 512]),
+                         "len": rng.randint(2, 4), "corr": -1, "exact": False}
+                new.append(o)
+            ops = new
         return {"N": N, "shape": shape, "dt": dt, "Nt": Nt, "t0": t0, "ops": ops,
                 "init": ([[round(rng.uniform(0, kscale / N), 6) for _ in range(N)] for _ in range(N)]
                          if shape == "from_data" else None)}
@@ -122,6 +136,13 @@ class World:
             rm = RateMatrix(dim=N)
 
         hist = {"max": 0.0}
+        kept = []                       # (what, the array object handed out, a private copy taken at once)
+
+        def check_kept(tag):
+            for what, obj, snap in kept:
+                check(obj.shape == snap.shape and numpy.array_equal(obj, snap), "earlier-result-changed",
+                      lambda: "%s: the array returned by %s is no longer what it was when it was returned: %s"
+                      % (tag, what, maxdiff(obj, snap) if obj.shape == snap.shape else "shape"))
 
         def Kmodel():
             K = numpy.zeros((N, N))
@@ -223,6 +244,10 @@ class World:
                 except Exception as e:
                     raise Violation("propagate-raised", "%s: %s" % (type(e).__name__, e))
                 pops = numpy.asarray(pops)
+                if len(kept) < 6:
+                    kept.append(("propagate at op %d" % idx, pops, pops.copy()))
+                    if sum(1 for k in kept if k[0].startswith("propagate")) >= 2:
+                        ctx.probe("two_propagation_results_kept")
                 check(pops.shape == (Nt, N), "propagate-shape", "shape %r" % (pops.shape,))
                 check(numpy.all(numpy.isfinite(pops)), "propagate-finite", "non-finite populations")
                 s0 = numpy.sum(p0)
@@ -303,6 +328,10 @@ class World:
                     raise Violation("prop-matrix-raised", "%s: %s (m=%d s=%d len=%d dt=%g)"
                                     % (type(raised).__name__, raised, m, s, ln, dt))
                 U = numpy.asarray(U)
+                if len(kept) < 6:
+                    kept.append(("get_PropagationMatrix at op %d" % idx, U, U.copy()))
+                if s * dt >= 64.0 and dt < 1e-2 and s % m != 0:
+                    ctx.probe("long_shift_just_off_a_whole_coarse_step")
                 check(U.shape == (N, N, ln), "prop-matrix-shape", "shape %r" % (U.shape,))
                 cand = [Know] if numpy.array_equal(Know, K_at_make) else [Know, K_at_make]
                 ok_any, worst = False, None
@@ -362,6 +391,7 @@ class World:
                 ctx.cov(N, "bad_set", how)
             else:
                 ctx.ev(idx, "noop", kind)
+            check_kept("after op %d (%s)" % (idx, kind))
             check(not (semantics["live"] and semantics["snapshot"]), "propagator-semantics-inconsistent",
                   lambda: "op %d: the same propagator followed a later set_rate in one call and ignored it in another" % idx)
         check_matrix("end")
@@ -376,7 +406,7 @@ class World:
 
     def simplify(self, program):
         # fewer time points, then rounder numbers
-        if program["Nt"] > 8:
+        if 8 < program["Nt"] < 5000:
             yield dict(program, Nt=8)
         if program.get("init"):
             yield dict(program, init=None, shape="generic")
